@@ -945,6 +945,11 @@ var nativeTable = map[string]func(a []value) value{
 	"strconv.FormatInt":  func(a []value) value { return strconv.FormatInt(asInt64(a[0]), int(asInt64(a[1]))) },
 	"strconv.FormatUint": func(a []value) value { return strconv.FormatUint(uint64(asInt64(a[0])), int(asInt64(a[1]))) },
 	"strings.Repeat":     func(a []value) value { return strings.Repeat(a[0].(string), int(asInt64(a[1]))) },
+	"go/token.IsIdentifier": func(a []value) value { return token.IsIdentifier(a[0].(string)) },
+	"go/token.IsKeyword":    func(a []value) value { return token.IsKeyword(a[0].(string)) },
+	"unicode.IsLetter":      func(a []value) value { return unicode.IsLetter(a[0].(int32)) },
+	"unicode.IsDigit":       func(a []value) value { return unicode.IsDigit(a[0].(int32)) },
+	"unicode.IsSpace":       func(a []value) value { return unicode.IsSpace(a[0].(int32)) },
 	"path/filepath.Base": func(a []value) value { return filepath.Base(a[0].(string)) },
 	"path/filepath.Dir":  func(a []value) value { return filepath.Dir(a[0].(string)) },
 	"path/filepath.Join": func(a []value) value {
@@ -1041,3 +1046,8 @@ func zeroResults(fn *ssa.Function) value {
 	}
 	return t
 }
+
+
+// preferNative: functions of interpreted packages that are nevertheless run
+// natively on concrete arguments (they depend on unicode tables).
+var preferNative = map[string]bool{"go/token.IsIdentifier": true, "go/token.IsKeyword": true}
